@@ -354,6 +354,47 @@ func runWorkerEnv(race bool, cpu int, outDir string, extra []string, args ...str
 
 // ---------------------------------------------------------------- replay
 
+// batchReplay re-executes the batch that produced a failure up to the run in
+// which it first failed, in a fresh process with the same worker seed, and
+// reports whether it fails there again with the same class.
+func batchReplay(spec propSpec, path string, verbose bool) bool {
+	ff, err := readFail(path)
+	if err != nil || ff.BatchRun < 1 {
+		return false
+	}
+	s, ok := subFor(spec, ff.Sub)
+	if !ok {
+		return false
+	}
+	dir := filepath.Join(scratch, "batch-replay")
+	os.RemoveAll(dir)
+	xenv := []string{"VERIF_SHRINKTIME=1ms"}
+	if ff.TimingDependent {
+		xenv = append(xenv, "VERIF_PARALLEL=1")
+	}
+	out, _ := runWorkerEnv(s.Race, 0, dir, xenv, "-prop", s.ID, "-runs", strconv.Itoa(ff.BatchRun), "-seed", strconv.FormatUint(ff.BatchSeed, 10), "-out", dir)
+	got, err := readFail(filepath.Join(dir, "fail-unshrunk.json"))
+	if verbose {
+		fmt.Printf("batch-prefix replay: worker seed %d, %d runs: %s\n", ff.BatchSeed, ff.BatchRun, firstLine(out))
+	}
+	return err == nil && got.Class == ff.Class
+}
+
+func markBatchPrefix(path string) {
+	b, err := os.ReadFile(path)
+	if err != nil {
+		return
+	}
+	var m map[string]any
+	if json.Unmarshal(b, &m) != nil {
+		return
+	}
+	m["replay_mode"] = "batch-prefix"
+	if out, err := json.MarshalIndent(m, "", " "); err == nil {
+		os.WriteFile(path, out, 0o644)
+	}
+}
+
 func subFor(spec propSpec, id string) (sub, bool) {
 	for _, s := range spec.Subs {
 		if s.ID == id {
@@ -364,6 +405,9 @@ func subFor(spec propSpec, id string) (sub, bool) {
 }
 
 type failFile struct {
+	BatchSeed       uint64 `json:"batch_seed"`
+	BatchRun        int    `json:"batch_first_failing_run"`
+	ReplayMode      string `json:"replay_mode"`
 	TimingDependent bool   `json:"timing_dependent"`
 	Property        string `json:"property"`
 	Sub             string `json:"check"`
@@ -418,6 +462,15 @@ func doReplay(id string, spec propSpec, path string) int {
 		trouble("replay file is for check %q", ff.Sub)
 	}
 	prepare(s.Race, !s.Race)
+	if ff.ReplayMode == "batch-prefix" {
+		if batchReplay(spec, path, true) {
+			fmt.Printf("violation class=%s (batch-prefix replay): %s\n", ff.Class, firstLine(ff.Detail))
+			fmt.Printf("VIOLATION property=%s replay=%s\n", id, path)
+			return 1
+		}
+		fmt.Println("batch-prefix replay: the batch passes")
+		return 0
+	}
 	code, out := replayOnce(spec, path, "20s")
 	fmt.Print(out)
 	switch code {
@@ -633,6 +686,14 @@ func runCheck(id string, spec propSpec, tier string, seed uint64) int {
 			}
 			fail := filepath.Join(wr.dir, "fail.json")
 			code, out := replayOnce(spec, fail, "20s")
+			if code != 1 && batchReplay(spec, fail, false) {
+				// The minimised run alone does not fail in a fresh process, but
+				// the batch does, again, at the same run: the code under test
+				// carries state from one run to the next that the simulator does
+				// not own. The replay file says how to replay (batch prefix).
+				markBatchPrefix(fail)
+				code = 1
+			}
 			if code != 1 {
 				ff, _ := readFail(fail)
 				keep := filepath.Join(buildDir, "unreproduced")
